@@ -118,6 +118,57 @@ def run_all(run):
         ro = r - 1
         o = rng.randrange(-(ro + 1), ro + 1)
         judge(run, "ext.multi_arg", {"batch": list(b), "in_dims": [i1, i2], "out_dims": o, "kind": kind}, f, (i1, i2), o, (td1, a2), kind)
+    # ---- (a2) arguments packed in pytrees (tuple / dict holding tensordicts and tensors), in_dims of matching structure, kwargs
+    for _ in range(n // 2):
+        b = rng.choice(BATCHES)
+        r = len(b)
+        i1 = rng.randrange(-r, r)
+        i2 = rng.randrange(-r, r)
+        B = b[i1 % r]
+        inner = tuple(b[:i1 % r] + b[i1 % r + 1:])
+        b2 = list(inner)
+        b2.insert(i2 % r, B)
+        td1, td2 = G.make_td(b), G.make_td(tuple(b2)).apply(lambda x: x * 3)
+        vec = torch.arange(B) + 7
+        form = rng.choice(["tuple", "dict", "nested", "kwargs"])
+        ro = r - 1
+        o = rng.randrange(-(ro + 1), ro + 1)
+        if form == "tuple":
+            f = lambda pair: pair[0].apply(lambda x, y: x + y, pair[1])
+            args, ind = ((td1, td2),), ((i1, i2),)
+            sl = lambda k: ((td1.unbind(i1 % r)[k], td2.unbind(i2 % r)[k]),)
+        elif form == "dict":
+            f = lambda d: d["p"].apply(lambda x, y: x + y, d["q"])
+            args, ind = ({"p": td1, "q": td2},), ({"p": i1, "q": i2},)
+            sl = lambda k: ({"p": td1.unbind(i1 % r)[k], "q": td2.unbind(i2 % r)[k]},)
+        elif form == "nested":
+            f = lambda t, rest: t.apply(lambda x, y: x + y, rest[0]).apply(lambda x: x * rest[1]["v"])
+            args, ind = (td1, (td2, {"v": vec})), (i1, (i2, {"v": 0}))
+            sl = lambda k: (td1.unbind(i1 % r)[k], (td2.unbind(i2 % r)[k], {"v": vec[k]}))
+        else:
+            f = lambda t, u, scale=1: t.apply(lambda x, y: (x + y) * scale, u)
+            args, ind = (td1, td2), (i1, i2)
+            sl = lambda k: (td1.unbind(i1 % r)[k], td2.unbind(i2 % r)[k])
+        kw = {"scale": 2} if form == "kwargs" else {}
+        case = {"batch": list(b), "in_dims": [i1, i2], "out_dims": o, "form": form}
+        def go(fn):
+            try:
+                with time_limit(30):
+                    return ("ok", fn())
+            except TimeoutError:
+                raise
+            except Exception as e:
+                return ("err", type(e).__name__ + ":" + str(e)[:80])
+        got = go(lambda: torch.vmap(f, in_dims=ind, out_dims=o)(*args, **kw))
+        ref = go(lambda: _stack([f(*sl(k), **kw) for k in range(B)], o))
+        run.case(("ext.pytree_args", str(case)), nontrivial=got[0] == "ok")
+        run.count("ext.pytree_args.outcome", got[0])
+        if got[0] != ref[0]:
+            run.oracle_fail("ext.pytree_args", case, f"vmap={got[0]}:{str(got[1])[:120]} loop={ref[0]}:{str(ref[1])[:120]}", fingerprint="err_mismatch|pytree|" + form)
+        elif got[0] == "ok" and not same(got[1], ref[1]):
+            run.oracle_fail("ext.pytree_args", case, "vmap result differs from the per-sample loop", fingerprint="value|pytree|" + form)
+        else:
+            run.oracle_ok("ext.pytree_args")
     # ---- (b) tuple / mixed outputs with per-output out_dims
     for _ in range(n):
         b = rng.choice(BATCHES)
@@ -234,7 +285,7 @@ def run_all(run):
             except Exception:
                 pass
     # ---- (f) functions from the C18 program generator
-    import c18_programs as C18
+    import c19_c18ops as C18
     safe = [o for o in C18.OPS if o not in ("setitem_idx", "split1", "chunk2", "unbind0", "idx_list", "reshape_flat", "flatten01", "squeeze", "sum0", "idx_empty",
                                             "mul2", "add_td", "abs", "neg", "stack_last")]   # the last five use arithmetic dunders (torch._foreach_*), see (g)
     for _ in range(n):
